@@ -75,6 +75,11 @@ def cases(tier):
             q = dict(prog)
             q['_family'] = name
             out.append(q)
+    import importlib as _il
+    for sp in _il.import_module('vk.checks.c06').special_programs():
+        q = dict(sp)
+        q['_family'] = 'c06'
+        out.append(q)
     out += race_family()
     return out
 
